@@ -7,6 +7,7 @@ class-kind function (`ClassKindFn`, or `none` = `defaultClassKind`), every mode/
 configuration and every directory listing.
 -/
 import GopModel.Model.DirClassify
+import GopModel.Generated.DirClassify
 set_option linter.unusedSimpArgs false
 namespace GopModel.DirClassify
 
@@ -237,6 +238,25 @@ theorem C34_default_classkind (n : Name) :
         intro hn; apply h1; rw [hn]; decide
       simp only [not_or] at h2
       simp [h1, h2, hn]
+
+/-- Translator tie: the hand-written `defaultClassKind` is the function denoted by the switch
+table regenerated from parser/parser_gop.go on every run (a changed comparison, extension or
+result changes the table and breaks this theorem; a form the translator does not know breaks
+the translator). -/
+theorem C34_defaultClassKind_is_source (n : Name) :
+    defaultClassKind n = evalClassKindCases Generated.DirClassify.defaultClassKindCases n := by
+  unfold defaultClassKind
+  simp only [Generated.DirClassify.defaultClassKindCases, evalClassKindCases, ProjRule.eval,
+    List.contains_cons, List.contains_nil, Bool.or_false, beq_iff_eq, Bool.or_eq_true]
+  by_cases h1 : ext n = dotSpx
+  · have : ext n = [0x2e, 0x73, 0x70, 0x78] := h1
+    simp [h1, this, mainSpx, dotSpx]
+  · have h1' : ¬ ext n = [0x2e, 0x73, 0x70, 0x78] := h1
+    by_cases h2 : ext n = dotGsh ∨ ext n = dotGmx
+    · have h2' : ext n = [0x2e, 0x67, 0x73, 0x68] ∨ ext n = [0x2e, 0x67, 0x6d, 0x78] := h2
+      simp [h1, h1', h2, h2']
+    · have h2' : ¬(ext n = [0x2e, 0x67, 0x73, 0x68] ∨ ext n = [0x2e, 0x67, 0x6d, 0x78]) := h2
+      simp [h1, h1', h2, h2']
 
 theorem C34_nil_classkind_is_default (cfg : Config) (h : cfg.classKind = none) :
     cfg.ck = defaultClassKind := by
